@@ -436,12 +436,74 @@ fn duplicates(ctx: &mut Ctx, t: bool) {
     }
 }
 
+/// Many copies of one key in a sharded build: their shard alone exceeds the 1 % slack the builder allows
+/// the largest shard, so every attempt ends with "maximum shard too big" before duplicates are looked for.
+/// Run in a child process with a time limit, so that this input gets a finding key of its own.
+fn heavy_duplicates(ctx: &mut Ctx) {
+    for (kind, threads) in [("func", 8usize), ("filter", 2)] {
+        let (n, copies) = (200_000usize, 3000usize);
+        if !ctx.case(|| format!("VBuilder::try_build {kind} n={n} with {copies} copies of one key, check_dups=true threads={threads} (child process, 12 s limit)")) {
+            continue;
+        }
+        ctx.nontrivial();
+        let mut child = std::process::Command::new(std::env::current_exe().unwrap())
+            .args(["--opt", &format!("heavyprobe={kind}:{n}:{copies}:{threads}")])
+            .stdout(std::process::Stdio::null())
+            .stderr(std::process::Stdio::null())
+            .spawn()
+            .expect("cannot spawn the probe");
+        let t0 = std::time::Instant::now();
+        let mut status = None;
+        while t0.elapsed().as_secs_f64() < 12.0 {
+            if let Some(st) = child.try_wait().unwrap() {
+                status = Some(st);
+                break;
+            }
+            std::thread::sleep(std::time::Duration::from_millis(50));
+        }
+        match status {
+            None => {
+                let _ = child.kill();
+                let _ = child.wait();
+                ctx.violation(
+                    &format!("C17|VBuilder::try_build|nonterminating-build-{copies}-copies-of-one-key-among-{n}"),
+                    format!("{kind}, {threads} threads: no result within 12 s (every attempt is rejected because the shard holding the copies is more than 1 % above the average, and that rejection is retried without bound before duplicates are ever looked for)"),
+                );
+            }
+            // the child exits 0 if the build returned Err(DuplicateKey), 3 if it returned anything else
+            Some(st) if st.code() == Some(3) => ctx.violation("C17|VBuilder::try_build|ok-with-duplicate-keys", format!("{kind} n={n} with {copies} copies of one key: the build did not report the duplicates")),
+            Some(_) => {}
+        }
+    }
+}
+
+fn heavy_probe_child(spec: &str) -> ! {
+    let p: Vec<&str> = spec.split(':').collect();
+    let (kind, n, copies, threads): (&str, usize, usize, usize) = (p[0], p[1].parse().unwrap(), p[2].parse().unwrap(), p[3].parse().unwrap());
+    let mut k: Vec<usize> = (0..n).map(|i| i * 3 + 7).collect();
+    for i in 1..copies {
+        k[i] = k[0];
+    }
+    let keys = Arc::new(k);
+    let vals: Arc<Vec<usize>> = Arc::new((0..n).map(|i| i % 5).collect());
+    let r = build(if kind == "func" { Kind::FuncShards } else { Kind::FilterShards }, &keys, &vals, Fault::None, Fault::None, true, threads);
+    std::process::exit(match r.out {
+        Err(e) if e.contains("Duplicate key") => 0,
+        _ => 3,
+    })
+}
+
 fn main() {
     let mut ctx = Ctx::from_args();
+    if let Some(spec) = ctx.opt("heavyprobe") {
+        let spec = spec.to_string();
+        heavy_probe_child(&spec);
+    }
     start_watchdog(60);
     let t = ctx.thorough();
     io_faults(&mut ctx, t);
     line_source_faults(&mut ctx, t);
     duplicates(&mut ctx, t);
+    heavy_duplicates(&mut ctx);
     ctx.finish();
 }
